@@ -68,10 +68,18 @@ func c04core(r *simkit.Run, minSources int, forceFine bool) {
 	var reqs []*c04req
 	var violation string
 
-	extract, err := utils.NewExtractor("request.header.Src")
+	base, err := utils.NewExtractor("request.header.Src")
 	if err != nil {
 		rt.Fatalf("extractor: %v", err)
 	}
+	// the source of some requests cannot be identified (the extractor fails): they are answered with an error,
+	// never reach the handler and must not touch anybody's slots
+	extract := utils.ExtractorFunc(func(req *http.Request) (string, int64, error) {
+		if req.Header.Get("X-Bad-Source") != "" {
+			return "", 0, fmt.Errorf("simulated: source cannot be identified")
+		}
+		return base.Extract(req)
+	})
 	handler := http.HandlerFunc(func(w http.ResponseWriter, req *http.Request) {
 		q := req.Context().Value(ctxKey{}).(*c04req)
 		q.entered = true
@@ -98,6 +106,19 @@ func c04core(r *simkit.Run, minSources int, forceFine bool) {
 
 	model := make([]int, nsrc) // coarse mode: admitted and not yet finished
 
+	var unidentified []*c04req
+	arriveBad := func(src int) *c04req {
+		q := &c04req{id: -1, src: src, rec: simkit.NewRecorder()}
+		unidentified = append(unidentified, q)
+		req := newRequest(q, srcName(src))
+		req.Header.Set("X-Bad-Source", "1")
+		q.task = sim.Spawn(fmt.Sprintf("bad(s%d)", src), func() {
+			defer func() { q.done = true; q.status = q.rec.Status }()
+			cl.ServeHTTP(q.rec, req)
+		})
+		sim.Note("arrive-unidentified", int64(src))
+		return q
+	}
 	arrive := func(src int) *c04req {
 		q := &c04req{id: len(reqs), src: src, rec: simkit.NewRecorder()}
 		reqs = append(reqs, q)
@@ -153,7 +174,7 @@ func c04core(r *simkit.Run, minSources int, forceFine bool) {
 	for i := 0; i < nops; i++ {
 		var kinds []string
 		if len(reqs) < maxReq {
-			kinds = append(kinds, "arrive", "arrive")
+			kinds = append(kinds, "arrive", "arrive", "arrive-unidentified")
 		}
 		pk := parked()
 		if len(pk) > 0 {
@@ -173,6 +194,13 @@ func c04core(r *simkit.Run, minSources int, forceFine bool) {
 				check()
 				coarseAfterArrive(q)
 			}
+		case "arrive-unidentified":
+			q := arriveBad(rapid.IntRange(0, nsrc-1).Draw(rt, "src"))
+			if !fine {
+				sim.RunTask(q.task)
+				check()
+			}
+			r.Fault("source-unidentifiable")
 		case "finish", "panic":
 			q := pk[rapid.IntRange(0, len(pk)-1).Draw(rt, "which")]
 			ins := instr{status: rapid.SampledFrom([]int{200, 201, 404, 500, 503}).Draw(rt, "status")}
@@ -221,6 +249,11 @@ func c04core(r *simkit.Run, minSources int, forceFine bool) {
 		}
 		if !q.entered && q.status != http.StatusTooManyRequests {
 			r.Fail("reject-status", "request %d not admitted but answered %d", q.id, q.status)
+		}
+	}
+	for _, q := range unidentified {
+		if !q.done || q.entered || q.status < 400 {
+			r.Fail("unidentified-source", "a request whose source could not be identified: done=%v reached the handler=%v status %d (expected an error response and no handler call)", q.done, q.entered, q.status)
 		}
 	}
 	for s := range inHandler {
